@@ -10,13 +10,15 @@
 EXTENDS Integers, Sequences, TLC, Json
 CONSTANTS Depth, Pre, Deep
 
-VARIABLES script, nd, up, dead, sent
-vars == <<script, nd, up, dead, sent>>
-Init == script = <<>> /\ nd = Pre /\ up = TRUE /\ dead = FALSE /\ sent = FALSE
+VARIABLES script, nd, up, dead, sent, open
+vars == <<script, nd, up, dead, sent, open>>
+Init == script = <<>> /\ nd = Pre /\ up = TRUE /\ dead = FALSE /\ sent = FALSE /\ open = FALSE
 
 Base == {"Declare", "Post0", "PostPlain", "PostUnknown", "Commit0", "Rollback0", "DischUnknown", "CtlDetach", "CtlAttach", "Recv", "CommitPost0", "RollbackPost0",
          \* retirement: the resource sends a delivery on L4 and the controller settles it under a transaction (or plainly)
-         "SendU", "Retire0", "RetirePlain", "PEnd"}
+         "SendU", "Retire0", "RetirePlain", "PEnd",
+         \* a two-frame post whose frames are separated by other events (a discharge in particular)
+         "BigFirst0", "BigRest"}
 Two == {"Post1", "Commit1", "Rollback1", "PostBig0"}
 More == {"Post0b", "Recvb", "Retire1", "RetireUnknown"}
 Ev == Base \cup Two \cup (IF Deep THEN More ELSE {})
@@ -27,6 +29,8 @@ Enabled(e) ==
   /\ (e \in {"Declare", "Commit0", "Rollback0", "Commit1", "Rollback1", "DischUnknown", "CtlDetach", "CommitPost0", "RollbackPost0"} => up)
   /\ (e = "Declare" => nd < 3)
   /\ (e = "CtlAttach" => ~up)
+  /\ (e = "BigFirst0" => nd >= 1 /\ ~open) /\ (e = "BigRest" => open)
+  /\ (e \in {"Post0", "Post1", "PostPlain", "PostUnknown", "PostBig0", "CommitPost0", "RollbackPost0"} => ~open)     \* one delivery at a time on L2
   /\ (e = "SendU" => ~sent) /\ (e \in {"Retire0", "Retire1", "RetirePlain", "RetireUnknown"} => sent)
   /\ (e = "Retire0" => nd >= 1) /\ (e = "Retire1" => nd >= 2)
 Next == \E e \in Ev : /\ Len(script) < Depth /\ Enabled(e) /\ script' = Append(script, e)
@@ -34,6 +38,7 @@ Next == \E e \in Ev : /\ Len(script) < Depth /\ Enabled(e) /\ script' = Append(s
                       /\ up' = IF e = "CtlDetach" THEN FALSE ELSE IF e = "CtlAttach" THEN TRUE ELSE up
                       /\ dead' = (e \in {"PostUnknown", "PEnd", "RetireUnknown"})
                       /\ sent' = (sent \/ e = "SendU")
+                      /\ open' = IF e = "BigFirst0" THEN TRUE ELSE IF e = "BigRest" THEN FALSE ELSE open
 Spec == Init /\ [][Next]_vars
 
 PF(perf, f) == [e |-> "PFrame", perf |-> perf, ch |-> 3, f |-> f]
@@ -64,6 +69,8 @@ Conc(e, d, m) ==
     [] e = "Post1" -> <<Post(6, d, m, Ref(1))>>
     [] e = "Post0b" -> <<Post(7, d, m, Ref(0))>>
     [] e = "PostBig0" -> Big(d, m, Ref(0))
+    [] e = "BigFirst0" -> <<Big(d, m, Ref(0))[1]>>
+    [] e = "BigRest" -> <<Big(d, m - 1, Ref(0))[2]>>
     [] e = "PostPlain" -> <<Plain(6, d, m)>>
     [] e = "PostUnknown" -> <<Post(6, d, m, [raw |-> <<7, 7, 7>>])>>
     [] e = "Commit0" -> <<Disch(d, Ref(0), FALSE, FALSE)>>
@@ -83,8 +90,8 @@ Conc(e, d, m) ==
     [] e = "PEnd" -> <<PF("end", [err |-> ""])>>
     [] e = "Recv" -> <<[e |-> "ARecv", l |-> "L2"]>>
     [] e = "Recvb" -> <<[e |-> "ARecv", l |-> "L3"]>>
-Dels(e) == IF e \in {"CtlDetach", "CtlAttach", "Recv", "Recvb", "SendU", "Retire0", "Retire1", "RetirePlain", "RetireUnknown", "PEnd"} THEN 0 ELSE IF e \in {"CommitPost0", "RollbackPost0"} THEN 2 ELSE 1
-Msgs(e) == IF e \in {"Post0", "Post1", "Post0b", "PostBig0", "PostPlain", "PostUnknown", "CommitPost0", "RollbackPost0"} THEN 1 ELSE 0
+Dels(e) == IF e \in {"CtlDetach", "CtlAttach", "Recv", "Recvb", "BigRest", "SendU", "Retire0", "Retire1", "RetirePlain", "RetireUnknown", "PEnd"} THEN 0 ELSE IF e \in {"CommitPost0", "RollbackPost0"} THEN 2 ELSE 1
+Msgs(e) == IF e \in {"Post0", "Post1", "Post0b", "PostBig0", "BigFirst0", "PostPlain", "PostUnknown", "CommitPost0", "RollbackPost0"} THEN 1 ELSE 0
 RECURSIVE Body(_, _, _, _), Decls(_)
 Body(sc, i, d, m) == IF i > Len(sc) THEN <<>> ELSE Conc(sc[i], d, m) \o Body(sc, i + 1, d + Dels(sc[i]), m + Msgs(sc[i]))
 Decls(k) == IF k >= Pre THEN <<>> ELSE <<Decl(k)>> \o Decls(k + 1)
